@@ -912,6 +912,31 @@ func init() {
 								continue
 							}
 						}
+						// min(a, b, …) of values each shown positive is positive
+						if mc, ok := v.(*ast.CallExpr); ok {
+							if id, ok := ast.Unparen(mc.Fun).(*ast.Ident); ok && id.Name == "min" {
+								if _, isB := info.Uses[id].(*types.Builtin); isB && len(mc.Args) > 0 {
+									allPos := true
+									for _, a := range mc.Args {
+										a = ast.Unparen(a)
+										if tv, ok := info.Types[a]; ok && tv.Value != nil {
+											if k, ok := constantInt64(tv); ok && k > 0 {
+												continue
+											}
+										}
+										acut := factEdges(fc, info, fd.Body, cmpFact{lo: "", hi: types.ExprString(a), strict: true}, nil)
+										if len(acut) > 0 && !fc.reachableAvoiding(b, acut) {
+											continue
+										}
+										allPos = false
+									}
+									if allPos {
+										obs = append(obs, mkOb(c, "SLEEP.cap-positive", u, construct, rs, Proved, "the minimum of values each shown positive", true))
+										continue
+									}
+								}
+							}
+						}
 						term := types.ExprString(v)
 						// every definition of the returned local is positive in the same sense, or the path established 0 < term
 						cut := factEdges(fc, info, fd.Body, cmpFact{lo: "", hi: term, strict: true}, nil)
